@@ -98,9 +98,9 @@ def run(ctx):
         return
     if ctx.thorough:
         ctx.model_check("MC_KeysetIO", "MC_KeysetIO", stage="M:KeysetIO/Secrets ids 0..2, <=2 keys, 2 prefixes, 5 materials, 2 keks, 3 ads",
-                        workers=8)
+                        workers=4)
     ctx.model_check("MC_KeysetIO", "MC_KeysetIO_quick", stage="M:KeysetIO/Secrets ids 0..1, <=2 keys, 5 materials, 2 keks, 3 ads",
-                    workers=4, heap="4g")
+                    workers=1, heap="4g")
     hp = os.path.join(ctx.scratch, "handles.ndjson")
     r = ctx.tlc("Plan_KeysetIO", env=dict(VERIF_HANDLES=hp, VERIF_SETS="mats,singles,pairs,random",
                                           VERIF_PAIRS=100000 if ctx.thorough else 40, VERIF_RANDOM=1500 if ctx.thorough else 40),
@@ -138,7 +138,8 @@ def run(ctx):
         for x in lines:
             if json.loads(x)["n"] not in bad_n:
                 f.write(x + "\n")
-    ctx.negative_control("Trace_Secrets", clean, corrupt, window=40, stage="NC:Trace_Secrets")
+    if not ctx.violations:    # a negative control needs a conforming trace; with a violation the run fails anyway
+        ctx.negative_control("Trace_Secrets", clean, corrupt, window=40, stage="NC:Trace_Secrets")
 
 
 MANIFEST = dict(
